@@ -215,6 +215,9 @@ pub struct World {
     pub snapshots: BTreeMap<u64, Book>,
     pub committed: Option<u64>,
     pub committed_chain_len: usize,
+    /// calls of a block under construction that only parked transactions and were made durable by a commit that the
+    /// engine accepted because nothing had been accepted into the block yet
+    pub committed_parked: Vec<Call>,
     /// highest block ever finalised on this database directory (survives clearCaches / restart)
     pub max_finalised: Option<u64>,
     pub uni: Universe,
@@ -247,6 +250,7 @@ impl World {
             snapshots: BTreeMap::new(),
             committed: None,
             committed_chain_len: 0,
+            committed_parked: vec![],
             max_finalised: None,
             uni: Universe::default(),
             log: vec![],
@@ -940,6 +944,7 @@ impl World {
                     self.committed = self.height;
                     self.noop_reorg_at = None;
                     self.stats.bump("commits_ok");
+                    self.note_committed_parked();
                 }
             }
             Op::ClearCaches => {
@@ -960,6 +965,7 @@ impl World {
                     if r.is_ok() {
                         self.committed = self.height;
                         self.stats.bump("commits_ok");
+                        self.note_committed_parked();
                     }
                 }
                 self.inst.close();
@@ -1034,6 +1040,12 @@ impl World {
         self.reorg_targets.push(target);
         let r = self.call("brc20_reorg", json!({"latest_valid_block_number": target}));
         if r.is_ok() {
+            // an accepted reorg means nothing had been accepted into a block under construction; what that block held
+            // (parked transactions, stamped with a height above the target) is rolled back with everything else
+            self.committed_parked.clear();
+            if self.open.as_ref().map_or(false, |o| o.txs == 0) {
+                self.open = None;
+            }
             if let Some(h) = self.height {
                 if target < h {
                     self.stats.bump(&format!("reorg_depth_{}", h - target));
@@ -1329,6 +1341,7 @@ impl World {
 /// indexer-side bookkeeping without the instance (for twins and for re-feeding lost blocks)
 #[derive(Clone, Debug)]
 pub struct Saved {
+    pub committed_parked: Vec<Call>,
     pub height: Option<u64>,
     pub open: Option<Open>,
     pub chain: Vec<BlockRec>,
@@ -1342,6 +1355,7 @@ pub struct Saved {
 impl World {
     pub fn save(&self) -> Saved {
         Saved {
+            committed_parked: self.committed_parked.clone(),
             height: self.height,
             open: self.open.clone(),
             chain: self.chain.clone(),
@@ -1352,7 +1366,18 @@ impl World {
             last_ts: self.last_ts,
         }
     }
+    /// a commit was accepted: what the block under construction holds (parked transactions only) is durable now
+    fn note_committed_parked(&mut self) {
+        self.committed_parked = match &self.open {
+            Some(o) if o.txs == 0 => o.calls.clone(),
+            _ => vec![],
+        };
+        if !self.committed_parked.is_empty() {
+            self.stats.bump("probe_commit_with_parked_only_open_block");
+        }
+    }
     pub fn restore(&mut self, s: Saved) {
+        self.committed_parked = s.committed_parked;
         self.height = s.height;
         self.open = s.open;
         self.chain = s.chain;
